@@ -54,10 +54,11 @@ def run(c):
     c.distinct_nontrivial = len(distinct)
     return c.finish(
         "model_checking",
-        rule="schedule = ops over listen(t,port|0|port of listener i|ephemeral port of dial i)/remove(t,listener)/dial(..)/"
+        rule="schedule = ops over listen(t,port|0|port of listener i|ephemeral port of dial i; plain, with /p2p suffix, or with an unsupported suffix)/remove(t,listener)/dial(..)/"
              "dialpoll/dropd/poll(t)/dropt(t)/write/read/close on 3 transport slots; all sequences up to length N over a "
              "13-letter alphabet that contain no impossible step, each followed by a drain (polls) and a final listen on port 1, "
-             "plus seeded random schedules of length 6..50 followed by a drain and listens on ports 1..3; "
+             "plus seeded random schedules of length 6..50 (3 of 4 generated online among the steps that make sense in the "
+             "current state) followed by a drain and listens on ports 1..3; "
              "distinct = distinct schedules containing a dial, a remove or a transport drop",
         assumptions=["nothing else in the driver process uses MemoryTransport; each run uses a private block of ports",
                      "single-threaded: operations on the hub are not interleaved at a finer grain than the API calls"],
